@@ -30,7 +30,7 @@ RULE = (
 )
 ASSUMPTIONS = [
     "plain-container reference model in this file, written from docsite/docs/usage/methods/collections.md",
-    "UNSPECIFIED (not judged): update_/transform_/without_ on a missing container; transforms on attributes with an item preparer "
+    "UNSPECIFIED (not judged): transforms on attributes with an item preparer "
     "whose result the preparer would change; key addressing of plain List[keyed spec] attributes",
 ]
 ELEM_HELPERS = ["with_item", "update_item", "transform_item", "without_item"]
@@ -38,7 +38,7 @@ MISSING_FAMILY = (IndexError, KeyError, ValueError)
 
 
 def GATES(tier):
-    g = [("helper_calls_judged", 2000), ("exhaustive_calls", 1000), ("missing_target_expected", 100), ("falsy_element_cases", 50), ("negative_index_cases", 50)]
+    g = [("helper_calls_judged", 2000), ("exhaustive_calls", 1000), ("missing_target_expected", 100), ("falsy_element_cases", 50), ("negative_index_cases", 50), ("directed_by_value_cases", 10)]
     for fam in ("list", "dict", "set", "klist", "kset"):
         for hk in ELEM_HELPERS:
             g.append((f"{fam}:{hk}", 3))
@@ -140,8 +140,7 @@ def model(world, cname, op, args, kwargs, cur):
     kw = {k: v for k, v in kwargs.items() if not k.startswith("_")}
     by_index = kwargs.get("_by_index", dr._ABSENT)
     missing_container = cur is dr._ABSENT
-    if missing_container and hk != "with_item":
-        raise Unspec()
+    # (a missing container is an empty one for every element helper: with_ creates it, the others find no target)
     if t.kind in ("list", "klist"):
         keyed = t.kind == "klist"
         L = [] if missing_container else list(cur[1] if keyed else cur)
@@ -505,7 +504,123 @@ def run_random(ctx, params):
             world.close()
 
 
+DIRECTED_SRC = """
+from typing import Dict, List, Set
+from spec_classes import spec_class, Attr
+from spec_classes.types import KeyedList, KeyedSet
+
+def by_v(item):
+    return item.v
+
+@spec_class
+class Item:
+    v: int = 0
+    note: str = Attr(default="", compare=False)   # not part of equality: a look-up value equal to a stored element may differ in it
+
+@spec_class(key="k")
+class KItem:
+    k: str
+    v: int = 0
+    note: str = Attr(default="", compare=False)
+
+@spec_class
+class Box:
+    floats: List[float] = []
+    nums: List[int] = []
+    marks: Set[float] = set()
+    items: List[Item] = []
+    kitems: KeyedList[KItem, str] = []
+    # singular-name collision: `values` falls back to *_values_item helpers; the scalar `value` has a preparer of its own
+    value: int = 0
+    values: List[int] = []
+    key: str = ""
+    keys: Dict[str, int] = {}
+
+    def _prepare_value(self, v):
+        return v * 10
+
+    def _prepare_key(self, v):
+        return v + "!"
+
+    def _prepare_keys_item(self, v):
+        return v + 1
+
+    # un-keyed spec elements in keyed containers: the key comes from a key function
+    fparts: KeyedList[Item, int] = Attr(default_factory=lambda: KeyedList(key=by_v))
+    funits: KeyedSet[Item, int] = Attr(default_factory=lambda: KeyedSet(key=by_v))
+"""
+
+
+def run_directed(ctx):
+    """
+    Addressing by value finds the element that *equals* the look-up value; the operation then applies to the stored
+    element (as `i = xs.index(v); xs[i] = f(xs[i])` would), not to the look-up value: equal-but-distinguishable pairs
+    (1.0 / 1 / True; spec elements differing in a compare=False attribute).
+    """
+    ns = cg.exec_module(DIRECTED_SRC, prefix="verif_c06d").__dict__
+    Box, Item, KItem = ns["Box"], ns["Item"], ns["KItem"]
+    same = lambda x: x  # noqa: E731
+    seen_args = []
+
+    def rec(x):
+        seen_args.append(x)
+        return x
+
+    def typed(xs):
+        return [(type(x).__name__, x) for x in xs]
+
+    cases = [
+        # label, build receiver, call, attribute, expected typed content
+        ("transform_float(1, same)", lambda: Box(floats=[1.0, 2.5]), lambda b, ip: b.transform_float(1, same, _by_index=False, _inplace=ip), lambda b: typed(b.floats), [("float", 1.0), ("float", 2.5)]),
+        ("transform_float(True, same)", lambda: Box(floats=[1.0, 2.5]), lambda b, ip: b.transform_float(True, same, _by_index=False, _inplace=ip), lambda b: typed(b.floats), [("float", 1.0), ("float", 2.5)]),
+        ("transform_num(True, same)", lambda: Box(nums=[1, 2]), lambda b, ip: b.transform_num(True, same, _by_index=False, _inplace=ip), lambda b: typed(b.nums), [("int", 1), ("int", 2)]),
+        ("transform_num(1.0, inc)", lambda: Box(nums=[1, 2]), lambda b, ip: b.transform_num(True, lambda x: x + 1, _by_index=False, _inplace=ip), lambda b: typed(b.nums), [("int", 2), ("int", 2)]),
+        ("transform_mark(1, same)", lambda: Box(marks={1.0}), lambda b, ip: b.transform_mark(1, same, _inplace=ip), lambda b: typed(sorted(b.marks)), [("float", 1.0)]),
+        ("update_item(equal probe, v=9)", lambda: Box(items=[Item(v=1, note="keep"), Item(v=2, note="other")]), lambda b, ip: b.update_item(Item(v=1), v=9, _by_index=False, _inplace=ip),
+         lambda b: [(i.v, i.note) for i in b.items], [(9, "keep"), (2, "other")]),
+        ("transform_item(equal probe, rec)", lambda: Box(items=[Item(v=1, note="keep")]), lambda b, ip: b.transform_item(Item(v=1), rec, _by_index=False, _inplace=ip),
+         lambda b: [(i.v, i.note) for i in b.items], [(1, "keep")]),
+        ("transform_item(equal probe, v=inc)", lambda: Box(items=[Item(v=1, note="keep")]), lambda b, ip: b.transform_item(Item(v=1), v=lambda x: x + 1, _by_index=False, _inplace=ip),
+         lambda b: [(i.v, i.note) for i in b.items], [(2, "keep")]),
+        ("update_kitem(equal probe, v=9)", lambda: Box(kitems=[KItem("a", v=1, note="keep")]), lambda b, ip: b.update_kitem(KItem("a", v=1), v=9, _by_index=False, _inplace=ip),
+         lambda b: [(i.k, i.v, i.note) for i in b.kitems], [("a", 9, "keep")]),
+        ("transform_kitem(equal probe, v=inc)", lambda: Box(kitems=[KItem("a", v=1, note="keep")]), lambda b, ip: b.transform_kitem(KItem("a", v=1), v=lambda x: x + 1, _by_index=False, _inplace=ip),
+         lambda b: [(i.k, i.v, i.note) for i in b.kitems], [("a", 2, "keep")]),
+        ("with_fpart(Item(v=3))", lambda: Box(), lambda b, ip: b.with_fpart(Item(v=3), _inplace=ip), lambda b: [i.v for i in b.fparts], [3]),
+        ("with_funit(Item(v=3))", lambda: Box(), lambda b, ip: b.with_funit(Item(v=3), _inplace=ip), lambda b: sorted(i.v for i in b.funits), [3]),
+        ("with_funit(v=4)", lambda: Box().with_funit(Item(v=3)), lambda b, ip: b.with_funit(v=4, _inplace=ip), lambda b: sorted(i.v for i in b.funits), [3, 4]),
+        ("with_funit(Item(v=0)) on non-empty", lambda: Box().with_funit(Item(v=3)), lambda b, ip: b.with_funit(Item(v=0), _inplace=ip), lambda b: sorted(i.v for i in b.funits), [0, 3]),
+        ("without_funit(3)", lambda: Box().with_funit(Item(v=3)).with_funit(Item(v=0)), lambda b, ip: b.without_funit(3, _inplace=ip), lambda b: sorted(i.v for i in b.funits), [0]),
+        ("with_values_item(3) [collision, scalar preparer]", lambda: Box(), lambda b, ip: b.with_values_item(3, _inplace=ip), lambda b: (b.values, b.value), ([3], 0)),
+        ("update_values_item(0, 7) [collision]", lambda: Box(values=[1, 2]), lambda b, ip: b.update_values_item(0, 7, _by_index=True, _inplace=ip), lambda b: b.values, [7, 2]),
+        ("with_value(4) [scalar keeps its preparer]", lambda: Box(values=[1]), lambda b, ip: b.with_value(4, _inplace=ip), lambda b: (b.values, b.value), ([1], 40)),
+        ("with_keys_item('b', 2) [collision, own item preparer]", lambda: Box(), lambda b, ip: b.with_keys_item("b", 2, _inplace=ip), lambda b: (b.keys, b.key), ({"b": 3}, "!")),  # (the default key "" is prepared on construction)
+        ("without_item(equal probe)", lambda: Box(items=[Item(v=1, note="keep"), Item(v=2, note="other")]), lambda b, ip: b.without_item(Item(v=1), _by_index=False, _inplace=ip),
+         lambda b: [(i.v, i.note) for i in b.items], [(2, "other")]),
+    ]
+    for label, mk, call, view, want in cases:
+        for ip in (False, True):
+            ctx.count("helper_calls_judged")
+            ctx.count("directed_by_value_cases")
+            b = mk()
+            del seen_args[:]
+            feats = {"family": "directed", "hkind": label.split("(")[0].split("_")[0] + "_item", "addressing": "value:equal_not_identical", "inplace": ip}
+            try:
+                r = call(b, ip)
+                got = view(r)
+            except Exception as e:
+                ctx.violation("container_model", f"Box.{label} (in place: {ip}) raised {type(e).__name__}: {e}; the plain-container operation gives {want}", features=feats, case=["directed", label, ip])
+                continue
+            if got != want:
+                ctx.violation("container_model", f"Box.{label} (in place: {ip}): result {got}; the plain-container operation on the *stored* element gives {want}", features=feats, case=["directed", label, ip])
+            elif seen_args and getattr(seen_args[0], "note", "keep") != "keep":
+                ctx.violation("container_model", f"Box.{label} (in place: {ip}): the transform received the look-up value ({seen_args[0]!r}), not the stored element", features=feats, case=["directed", label, ip])
+            ctx.sig("directed", label, ip)
+
+
 def run(ctx, params):
+    if params["mode"] == "directed":
+        return run_directed(ctx)
     if params["mode"] == "exh":
         return run_exhaustive(ctx, params)
     return run_random(ctx, params)
@@ -513,5 +628,5 @@ def run(ctx, params):
 
 def plan(tier, seed):
     if tier == "quick":
-        return [{"mode": "exh", "part": i, "parts": 8} for i in range(8)] + [{"mode": "rand", "shard": i, "cases": 50, "ops_per_case": 14} for i in range(8)]
-    return [{"mode": "exh", "part": i, "parts": 8} for i in range(8)] + [{"mode": "rand", "shard": i, "cases": 1200, "ops_per_case": 16} for i in range(24)]
+        return [{"mode": "directed"}] + [{"mode": "exh", "part": i, "parts": 8} for i in range(8)] + [{"mode": "rand", "shard": i, "cases": 50, "ops_per_case": 14} for i in range(8)]
+    return [{"mode": "directed"}] + [{"mode": "exh", "part": i, "parts": 8} for i in range(8)] + [{"mode": "rand", "shard": i, "cases": 1200, "ops_per_case": 16} for i in range(23)]
